@@ -126,3 +126,42 @@ func CallArgsText(l Loc) []string {
 	}
 	return out
 }
+
+// AstEvery: every AST node of the function body (closures included) selected by sel satisfies
+// pred; at least min nodes must be selected.  For constructs that are not CFG nodes (range and
+// if statements, composite literals inside larger expressions).
+func (f *Fn) AstEvery(rule, selDesc string, sel func(n ast.Node) bool, predDesc string, pred func(n ast.Node) bool, min int) bool {
+	what := "every " + selDesc + " " + predDesc
+	n := 0
+	ok := true
+	ast.Inspect(f.Body, func(x ast.Node) bool {
+		if x == nil || !ok {
+			return ok
+		}
+		if sel(x) {
+			n++
+			if !pred(x) {
+				f.C.Fail(rule, f.Where(), what, f.P.Pos(x.Pos()), selDesc+" at "+f.P.Pos(x.Pos())+" is not one that "+predDesc)
+				ok = false
+			}
+		}
+		return true
+	})
+	if !ok {
+		return false
+	}
+	if n < min {
+		f.C.Fail(rule, f.Where(), what, f.P.Pos(f.Body.Pos()), fmt.Sprintf("%d occurrence(s) of %s in %s, %d confirmed by reading (rule instance vanished)", n, selDesc, f.Name, min))
+		return false
+	}
+	f.C.Pass(rule, f.Where(), what, fmt.Sprintf("%d occurrence(s)", n))
+	return true
+}
+
+// RangeLoopWith selects range statements whose body contains a match of m.
+func (f *Fn) RangeLoopWith(m Matcher) func(ast.Node) bool {
+	return func(n ast.Node) bool {
+		rs, ok := n.(*ast.RangeStmt)
+		return ok && f.Graph.Contains(rs.Body, m)
+	}
+}
